@@ -77,11 +77,20 @@ def alphabet():
         ("dict+kw", "dict+kw", {"link_en": 0x15, "p2p_sql": 9}, 1020),
         ("mc", "mc", {"hw_ver": 2, "num_buf": 3}, 1028),
         ("bundled", "kwargs", {"hw_ver": 4}, "bundled"),
+        # overrides that EQUAL the struct file's default, followed by ones
+        # that do not (dict order is the order given)
+        # (boot_delay is a parameter of boot() itself, not an sv field name
+        # that can be given as a keyword)
+        ("same_first", "kwargs", {"cpu_clk": 200, "netinit_bc_wait": 33,
+                                  "hw_ver": 6}, 1028),
+        ("preset+", "kwargs", {"led0": 1, "hw_ver": 5, "cpu_clk": 150,
+                               "num_buf": 7, "mem_clk": 77}, 1028),
     ]
 
 
 def scope(tier):
-    return dict(depth=3 if tier == "quick" else 4, alphabet=[a[0] for a in alphabet()],
+    return dict(depth=3 if tier == "quick" else 4,
+                alphabet=[a[0] for a in alphabet()],
                 image_sizes=SIZES + ["bundled"])
 
 
